@@ -71,6 +71,25 @@ PROPS = {
         "technique": "exhaustive enumeration of finite value domains on the implementation with a validity invariant on every stored cell / key / string",
         "assumptions": ["characters are inspected through `ch as u32` in an optimised build without debug assertions"],
     },
+    "C12": {
+        "bin": "px_layers", "budget_ms": 30000, "wall_cap": {"quick": 120, "thorough": 2400},
+        "rule": "every glyph 0..255 of every built-in font page 0..=42 as the middle cell of 3-cell rows with neighbours from {0, 32, 255, 219, 'A'}, 8 colour contexts (incl. bright, equal fg/bg and an extra palette colour), bold on/off, "
+                "both settings of normalize_whitespaces; all stacks of 2 (thorough 3) layers of the small layer menu (alpha / offset / hidden / chars / attributes layers) above a base layer for the flattening step; "
+                "oracle: byte-identical render_to_rgba of input and ColorOptimizer::optimize(input), same size. non-trivial = one middle glyph / one stack",
+        "level_text": "the complete glyph range of all built-in fonts and the complete small layer-stack scope are pushed through the real optimiser and renderer and compared pixel for pixel",
+        "level_note": "the optimiser is a left-to-right fold over the previous cell's attribute, so 3-cell rows determine its behaviour; the primary font slot is set to the page under test so that the renderer draws every glyph row",
+        "technique": "small-scope exhaustive input enumeration with a differential (render before / after) oracle on the implementation",
+        "assumptions": [],
+    },
+    "C13": {
+        "bin": "px_layers", "budget_ms": 30000, "wall_cap": {"quick": 120, "thorough": 2400},
+        "rule": "all stacks of 1 and 2 layers over the rich layer menu (3 sizes x 4 offsets x 3 modes x alpha x visible x up to 15 contents incl. transparent-colour half blocks, visible NUL and invisible cells) and all stacks of 3 (thorough 4) layers over the small menu; "
+                "laws L1-L5 and the reference compositor R evaluated on every stack at every position of the bounding box + 2 cells; non-trivial = the stack shows at least one visible cell",
+        "level_text": "the complete small scope of layer stacks is composited by the real Buffer::get_char and checked against metamorphic stacking laws and a reference compositor transcribed from the statement",
+        "level_note": "invisible results compare as invisible only; the reference compositor applies to normal-mode layers without transparent colours, the laws to all stacks",
+        "technique": "small-scope exhaustive enumeration with metamorphic oracles and a reference model compared on every case",
+        "assumptions": [],
+    },
     "C14": {
         "bin": "px_sixel", "budget_ms": 20000, "case_wall_ms": 8000, "judge_budget": True, "wall_cap": {"quick": 120, "thorough": 2400},
         "rule": "payloads: every string of <=5 (thorough 6) tokens over a 16-token sixel alphabet through Sixel::parse_from; schedules: every interleaving of in-order arrivals, "
@@ -116,6 +135,8 @@ PROPS = {
 HOOK_COMMITS = ["81babd1"]
 
 ENGINES = [
+    {"name": "px_layers", "path": "harness/src/bin/px_layers.rs", "serves_properties": ["C12", "C13"],
+     "kind_free_text": "layer stack enumerator with stacking laws + reference compositor; colour optimiser render-equivalence enumerator"},
     {"name": "px_load", "path": "harness/src/bin/px_load.rs", "serves_properties": ["C02", "C03"],
      "kind_free_text": "fault enumerator over seed files (truncations, byte / field corruption, IcyDraw chunk payload faults) for all loaders and extractors; header-extreme strata under the C03 cost oracle"},
     {"name": "px_binfmt", "path": "harness/src/bin/px_binfmt.rs", "serves_properties": ["C05", "C06"],
